@@ -224,6 +224,10 @@ fn judge(name: &str, input: &str, setting: &Setting, strip: bool, sab: &Sab) -> 
     if !em.analyzer_errors.is_empty() {
         // the property quantifies over designs that build
         r.count("designs_with_analyzer_errors_not_judged", 1);
+        if name.starts_with("strsyn") {
+            r.count("string_modules_with_analyzer_errors_not_judged", 1);
+            r.notes.push(format!("{head}: analyzer errors {:?}", em.analyzer_errors));
+        }
         return r;
     }
     if let Some(e) = &em.map_error {
@@ -247,6 +251,17 @@ fn judge(name: &str, input: &str, setting: &Setting, strip: bool, sab: &Sab) -> 
                 entries.retain(|e| e.dst_line != l);
             }
         }
+        Some("mb_cols") => {
+            // what a renderer that advances by bytes instead of characters would record
+            let mut extra: std::collections::HashMap<u32, u32> = Default::default();
+            for e in entries.iter_mut() {
+                let add = *extra.get(&e.dst_line).unwrap_or(&0);
+                e.dst_col += add;
+                if !e.name.contains('\n') {
+                    *extra.entry(e.dst_line).or_insert(0) += (e.name.len() - e.name.chars().count()) as u32;
+                }
+            }
+        }
         Some("swap") => {
             let n = entries.len();
             if n > 3 {
@@ -256,6 +271,9 @@ fn judge(name: &str, input: &str, setting: &Setting, strip: bool, sab: &Sab) -> 
         _ => {}
     }
     r.count("designs_judged", 1);
+    if name.starts_with("strsyn") {
+        r.count("string_modules_judged", 1);
+    }
     r.seen("settings", &label);
     // An entry with an empty name (the anonymous identifier `_` and the start-of-file token are
     // emitted as empty anchored text) has no "name text" to find; it is counted, not judged.
@@ -390,6 +408,13 @@ fn judge(name: &str, input: &str, setting: &Setting, strip: bool, sab: &Sab) -> 
             return r;
         }
     }
+    let mut mb_followed = 0i64;
+    for w in entries.windows(2) {
+        if !w[0].name.is_ascii() && !is_comment_text(&w[0].name) && !w[0].name.contains('\n') && w[1].dst_line == w[0].dst_line {
+            mb_followed += 1;
+        }
+    }
+    r.count("anchored_tokens_with_multibyte_text_followed_by_tokens", mb_followed);
     r.count("entries_where_column_unit_matters", non_ascii_sensitive);
     if non_ascii_sensitive > 0 {
         r.count("designs_where_column_unit_matters", 1);
@@ -408,6 +433,18 @@ fn judge(name: &str, input: &str, setting: &Setting, strip: bool, sab: &Sab) -> 
         r.violation(
             "src:no-consistent-column-unit".into(),
             format!("{head}: no single column unit fits all source positions; as characters: {}", first_src_fail[0].clone().unwrap_or_default()),
+            replay(json!({"sv": sv})),
+        );
+        return r;
+    }
+    // one map, one convention: a unit that fits the output side must also fit the source side
+    if !dst_units.iter().any(|u| src_units.contains(u)) {
+        r.violation(
+            "columns:units-differ-between-sides".into(),
+            format!(
+                "{head}: output positions only fit column unit(s) {dst_units:?}, source positions only {src_units:?}; as characters: {}",
+                first_dst_fail[0].clone().or(first_src_fail[0].clone()).unwrap_or_default()
+            ),
             replay(json!({"sv": sv})),
         );
         return r;
@@ -527,16 +564,29 @@ fn gen_input(corpus: &[vcommon::corpus::CorpusFile], seed: u64, j: u64) -> (Stri
         let f = &corpus[j as usize];
         return (format!("corpus:{}:{}", f.kind, f.name), f.text.clone());
     }
-    let f = &corpus[((j - n) % n) as usize];
     let mut rng = Rng::for_case(seed, "C13", j);
+    let m = j - n;
+    if m % 3 == 2 {
+        // multi-byte text inside TOKENS (string literals) followed by tokens on the same line
+        let t = crate::alignsyn::string_module(&mut rng);
+        if rng.bool() {
+            return (format!("strsyn#{m}"), t);
+        }
+        let o = LayoutOpts::random(&mut rng);
+        return (format!("strsyn+layout#{m}"), layout(&t, &mut rng, &o));
+    }
+    let f = &corpus[((m - m / 3) % n) as usize];
     let mut o = LayoutOpts::random(&mut rng);
     // this property is about comments next to tokens and non-ASCII text: make both frequent
     if o.comment_permille < 40 {
         o.comment_permille = *rng.pick(&[40, 120, 250]);
     }
     o.multibyte = rng.chance(3, 4);
-    let text = layout(&f.text, &mut rng, &o);
-    (format!("layout:{}:{}#{}", f.kind, f.name, (j - n) / n), text)
+    let mut text = layout(&f.text, &mut rng, &o);
+    if rng.bool() {
+        text = crate::alignsyn::mutate_strings(&text, &mut rng, 700);
+    }
+    (format!("layout:{}:{}#{}", f.kind, f.name, m / n), text)
 }
 
 pub fn main(args: Args) {
@@ -610,6 +660,8 @@ pub fn main(args: Args) {
         ("entries_checked", 60_000),
         ("entries_mapping_to_comments", 3_000),
         ("entries_where_column_unit_matters", 1_500),
+        ("anchored_tokens_with_multibyte_text_followed_by_tokens", 150),
+        ("string_modules_judged", 60),
         ("designs_where_column_unit_matters", 60),
         ("identifier_words_checked", 15_000),
         ("maps_equal_to_renderer_anchors", 250),
